@@ -22,12 +22,16 @@ CLAIM = dict(
          "horizon and iteration order, discrete_SIR infects v exactly at tmin + breadth-first distance in the digraph of successful contacts "
          "(initially recovered nodes removed), keeps it infectious one step, conserves S+I+R=N, and its outputs do not depend on the iteration order; "
          "with Bernoulli(p) coins the one-step law of basic_discrete_SIR / basic_discrete_SIS is the Reed-Frost / discrete-SIS product formula; "
-         "percolate_network keeps each edge independently with probability p on the same node set; percolation_based_discrete_SIR examines every edge once. "
+         "percolate_network keeps each edge independently with probability p on the same node set; on a common symmetric table of coins "
+         "percolation_based_discrete_SIR and basic_discrete_SIR return the same rows and histories (deferred decisions, pathwise). "
          "Tie: extracted model vs /repo on the same contact tables, exhaustively over all Bernoulli outcomes on small graphs, plus draw-by-draw replay of the p-based functions.",
     design='DESIGN.md section 4, C12',
     technique='Coq proof (BFS characterisation by induction over generations, product law by induction over the contact list) + extracted-model/implementation correspondence + independent BFS oracle',
     note="random.random uniform on [0,1), random.choice/sample uniform and independent draws are assumed (DESIGN 2.3). Equality in law of percolation_based_discrete_SIR "
-         "and basic_discrete_SIR rests on the principle of deferred decisions (cited); the pathwise statement on a common table of coins is proved and checked. "
+         "and basic_discrete_SIR rests on the principle of deferred decisions (cited); the pathwise statement on a common table of coins is proved (C12_perc_sir_pathwise) and checked dynamically. "
+         "The BFS theorem is proved for test_recovery=None and initial_infecteds given; runs with a user recovery test (BFS times for rules that are functions of the pair) and the rho path "
+         "are covered by the correspondence and the independent oracle only. The draw-by-draw replay of the default-rule program is limited to runs with at most 10 uniform draws "
+         "(the extracted sampler tree is strict in both branches of every Flip). "
          "Domain: simple graphs, duplicate-free disjoint initial sets inside the graph, integer horizons (tmax - tmin integer) for the history clauses.")
 
 MODEL = 'Model/Discrete.v'
@@ -270,7 +274,7 @@ def run(run, tier):
         SC.run_cases(L, EoN, sim, cs, ['A 50 40 0'] * len(cs), oracle=L.oracle_bfs, nontrivial=nontrivial, res=results[kind], label='rho_all_samples')
 
     # 2. random tables on larger graphs
-    nrand = 500 if quick else 6000
+    nrand = 1500 if quick else 20000
     rand_cases = {}
     for kind in L.KINDS:
         cs = [L.gen_case(rng, kind, nmax=10 if i % 2 else 7, malformed=(i % 40 == 0)) for i in range(nrand)]
@@ -283,7 +287,7 @@ def run(run, tier):
             if c['r0']: bump('with_initial_recovereds')
             if c['tmax'] is not None and not L.integer_horizon(c): bump('non_integer_horizon')
             if c['kind'] == 'DSIR' and c['rule'] == 'default': bump('discrete_SIR_default_rule')
-    pc = [gen_perc(rng, 8) for _ in range(200 if quick else 3000)]
+    pc = [gen_perc(rng, 8) for _ in range(500 if quick else 8000)]
     SC.run_cases(L, EoN, sim, pc, ['W 1 0'] * len(pc), oracle=perc_oracle, nontrivial=nontrivial, res=results['PERC'], label='random')
 
     # 3. draw-by-draw replay of the sampler program with the default rule, in the observed order
